@@ -234,7 +234,7 @@ Lemma transport_rt_fails_none :
   exists tok w',
     jws_tenc x_mac x_pks x_ecs x_choose (KOne (x_key None)) algs w (asc "{}") = (Ok tok, w') /\
     jws_tdec x_mac x_pkv x_ecv (KOne (x_key None)) algs tok = Err (EJose BadSignatureError).
-Proof. cbv zeta. eexists. eexists. split; vm_compute; reflexivity. Qed.
+Proof. cbv zeta. eexists. eexists. split; [vm_compute; reflexivity|]. vm_compute. reflexivity. Qed.
 
 Lemma transport_rt_fails_falsy_kid :
   let w := [(asc "typ", PStr (asc "JWT")); (s_alg, PStr (asc "HS256")); (s_kid, PStr [])] in
@@ -262,5 +262,5 @@ Lemma jwt_rt_instance :
       Ok ([(asc "typ", PStr (asc "JWT")); (s_alg, PStr (asc "HS256"))], PDict [(asc "sub", PStr (asc "a"))]).
 Proof.
   cbv zeta. eexists. split; [vm_compute; reflexivity|].
-  split; [repeat split|]. split; [vm_compute; lia|]. split; [reflexivity|]. split; vm_compute; reflexivity.
+  split; [repeat split|]. split; [vm_compute; lia|]. split; [reflexivity|]. split; [vm_compute; reflexivity|]. vm_compute. reflexivity.
 Qed.
